@@ -16,16 +16,16 @@ SER = 'cssutils/serialize.py'
 
 
 def run(chk):
-    r16a(chk)
-    r16b(chk)
-    r16c(chk)
-    r16d(chk)
-    r16e(chk)
-    r16f(chk)
-    r16g(chk)
+    chk.attempt(r16a, chk)
+    chk.attempt(r16b, chk)
+    chk.attempt(r16c, chk)
+    chk.attempt(r16d, chk)
+    chk.attempt(r16e, chk)
+    chk.attempt(r16f, chk)
+    chk.attempt(r16g, chk)
     from .c16b import r16h
 
-    r16h(chk, thorough=chk.tier == 'thorough')
+    chk.attempt(r16h, chk, thorough=chk.tier == 'thorough')
 
 
 def eval_append(chk, typ, val, context, prefix, namespaces=None):
